@@ -15,7 +15,9 @@
     answers everything) so that "eventually" obligations fall due.
 (C) code -> spec: every execution of (B) and seeded random schedules are logged (stimulus, what became visible
     while the loop settled, what is visible afterwards) and validated by TLC against ZcLifecycle_Trace: an
-    execution is accepted only if every observation is the one the specification computes.
+    execution is accepted only if every observation is the one the specification computes.  Executions
+    rejected by the intended behaviour are validated once more with the deviation enabled: accepted only then
+    = KNOWN-FINDING (one signature), rejected even then = VIOLATION.
 (D) records for pairings that were shut down (IP and CoAP flavour, with / without a description seen before,
     direct and through the browser callback + timer) are logged in the vocabulary of C19's Discovery_Trace and
     validated there (CallbackNeverRaises, NoLostWakeup).
@@ -263,12 +265,13 @@ def _explain(full, rej):
     return head + f"after event #{pos} {json.dumps(what)}: " + "; ".join(diffs or ["observation differs"])
 
 
-def _validate(ctx, recs, label, tmp):
-    """batch validation; returns [(full record, rejection dict)] - details (the specification's state before the
-    rejected event and after taking its step) are computed for two executions per kind of stimulus only"""
-    path = os.path.join(AREA, "ZcLifecycle_Trace.tla")
-    cfgp = os.path.join(AREA, "ZcLifecycle_Trace.cfg")
-    bad = []
+SIG = "extzc-remove-pairing-case-sensitive-pop"
+CFG_INTENDED, CFG_DEVIATION = "ZcLifecycle_Trace.cfg", "ZcLifecycle_Trace_dev.cfg"
+
+
+def _batch(ctx, recs, cfg, label, tmp):
+    """validate recs against ZcLifecycle_Trace with cfg; returns [(index, furthest event)] of the rejected ones"""
+    out = []
     chunk = 4000
     for off in range(0, len(recs), chunk):
         part = recs[off:off + chunk]
@@ -276,29 +279,125 @@ def _validate(ctx, recs, label, tmp):
         with open(tf, "w") as f:
             for r in part:
                 f.write(json.dumps(_trim(r)) + "\n")
-        res = ctx.tlc("discovery/ZcLifecycle_Trace", "ZcLifecycle_Trace.cfg", env={"TRACE_FILE": tf, "DBG_L": "0"}, workers=1,
+        res = ctx.tlc("discovery/ZcLifecycle_Trace", cfg, env={"TRACE_FILE": tf, "DBG_L": "0"}, workers=1,
                       dfs_queue=True, coverage=False, require_cover=False, expect_violation=True, timeout=1500,
                       label=f"{label} ({len(part)} executions)")
         os.unlink(tf)
         if not res.ok:
             raise MachineryError(f"trace validation failed: {res.violation['kind']} {res.violation['name']}\n{res.stdout[-3000:]}")
-        rej = [(int(a), int(b)) for a, b in re.findall(r'<<"REJECTED", (\d+), (\d+)>>', res.stdout)]
-        for tid, maxl in rej:
-            full = part[tid - 1]
-            ev = full["events"][maxl - 1] if 0 < maxl <= len(full["events"]) else None
-            bad.append((full, {"maxl": maxl, "event": ev, "last_state": None, "settled_state": None, "invariant": None}))
-        ctx.trace_ok(len(part) - len(rej))
+        out += [(off + int(a) - 1, int(b)) for a, b in re.findall(r'<<"REJECTED", (\d+), (\d+)>>', res.stdout)]
+    return out
+
+
+def _rejection(full, maxl):
+    ev = full["events"][maxl - 1] if 0 < maxl <= len(full["events"]) else None
+    return {"maxl": maxl, "event": ev, "last_state": None, "settled_state": None, "invariant": None}
+
+
+def _detail(full, rej, cfg):
+    path, cfgp = os.path.join(AREA, "ZcLifecycle_Trace.tla"), os.path.join(AREA, cfg)
+    rej["detail"] = True
+    rej["settled_state"] = tracecheck._last_state(path, cfgp, _trim(full), rej["maxl"], "DebugExpected")
+    if rej["settled_state"] is None:
+        rej["last_state"] = tracecheck._last_state(path, cfgp, _trim(full), rej["maxl"])
+
+
+def _validate(ctx, recs, label, tmp):
+    """Batch validation, decided by the specification in two passes: first against the intended behaviour
+    (NormalisedRemove = TRUE); the executions rejected there once more with the recorded deviation enabled
+    (NormalisedRemove = FALSE, known finding SIG).  Returns (known, bad): executions explained only by the
+    deviation, and executions no behaviour of the module explains even then - both as [(record, rejection)].
+    Details (the specification's state around the rejected event) for two executions per kind of stimulus."""
+    rej1 = _batch(ctx, recs, CFG_INTENDED, label, tmp)
+    known, bad = [], []
+    if rej1:
+        sub = [recs[i] for i, _ in rej1]
+        rej2 = dict(_batch(ctx, sub, CFG_DEVIATION, label + ": executions rejected by the intended behaviour, with the recorded deviation", tmp))
+        for j, (i, maxl) in enumerate(rej1):
+            if j in rej2:
+                bad.append((recs[i], _rejection(recs[i], rej2[j])))
+            else:
+                known.append((recs[i], _rejection(recs[i], maxl)))
+    ctx.trace_ok(len(recs) - len(bad))
     per_kind = {}
     for full, rej in bad:
         ev = rej["event"] or {}
         k = (ev.get("ev"), ev.get("kind"))
         if per_kind.setdefault(k, 0) < 2 and sum(per_kind.values()) < 12:
             per_kind[k] += 1
-            rej["detail"] = True
-            rej["settled_state"] = tracecheck._last_state(path, cfgp, _trim(full), rej["maxl"], "DebugExpected")
-            if rej["settled_state"] is None:
-                rej["last_state"] = tracecheck._last_state(path, cfgp, _trim(full), rej["maxl"])
-    return bad
+            _detail(full, rej, CFG_DEVIATION)
+    if known:
+        _detail(*known[0], CFG_INTENDED)
+    return known, bad
+
+
+def _report_known(ctx, known, where):
+    if not known:
+        return
+    full, rej = known[0]
+    ctx.notes["executions_explained_only_by_known_finding"] = ctx.notes.get("executions_explained_only_by_known_finding", 0) + len(known)
+    ctx.violation(f"{len(known)} {where} are accepted only with the deviation NormalisedRemove = FALSE (remove_pairing pops pairing.id); first: "
+                  + _explain(full, rej), {"kind": "trace", "params": {k: full[k] for k in ("idcase", "honest", "cache0", "accv0", "tag", "cache_kind", "cbase")},
+                                          "steps": full["steps"], "position": rej["maxl"], "event": rej["event"], "id": full["id"], "src": full["src"]},
+                  signature=SIG)
+
+
+_CE = re.compile(r"^State \d+: <(\w+)(?:\((.*?)\))? line \d+", re.M)
+
+
+def _confirm_finding(ctx, res, tmp):
+    """the counterexample TLC found for the deviation (ZcLifecycle_neg.cfg) is replayed on the real code: the
+    finding is real iff the execution is rejected by the intended behaviour and accepted with the deviation"""
+    from harness import extzc_driver as D
+    txt = res.violation["trace"]
+    hdr = [(m.group(1), m.group(2) or "") for m in _CE.finditer(txt)]
+    # (harness.tlc.parse_counterexample stops at the '>' of a record parameter: split the states here)
+    blocks = re.split(r"^State \d+: <.*$", txt, flags=re.M)[1:]
+    try:
+        ce = [(None, T.parse_state(b)) for b in blocks]
+    except (ValueError, IndexError, TypeError) as ex:
+        raise MachineryError(f"cannot parse the counterexample of ZcLifecycle_neg.cfg: {ex}")
+    if len(hdr) + 1 != len(ce) or len(ce) < 2:          # the initial state has no action header
+        raise MachineryError("cannot parse the counterexample of ZcLifecycle_neg.cfg")
+    st0 = ce[0][1]
+    cache = st0["cache"]
+    params = {"idcase": st0["idcase"], "honest": bool(st0["honest"]), "accv0": st0["accv"],
+              "cache0": 0 if not cache else 10 * cache[0]["c"] + cache[0]["a"], "tag": f"ce-{ctx.seed}", "cache_kind": "mem", "cbase": 0}
+    steps = []
+    for (name, par), (_, st) in zip(hdr, ce[1:]):
+        if name == "Announce":
+            steps.append(("announce", dict(st["zc"][0])))
+        elif name == "Answer":
+            steps.append(("answer", par.strip().strip('"')))
+        elif name == "DbChange":
+            steps.append(("db", st["accv"]))
+        elif name == "UserRestore":
+            steps.append(("restore", *(int(x) for x in par.split(","))))
+        elif name in _STEP:
+            steps.append((_STEP[name],))
+        else:
+            raise MachineryError(f"unknown action {name} in the counterexample")
+    rec = D.run_steps(params, steps, rid="counterexample", src="tlc-counterexample", drain=True)
+    ctx.case(json.dumps([{k: v for k, v in e.items() if k in KEEP} for e in rec["events"]], sort_keys=True))
+    r1 = _batch(ctx, [rec], CFG_INTENDED, "counterexample of the deviation replayed: intended behaviour", tmp)
+    r2 = _batch(ctx, [rec], CFG_DEVIATION, "counterexample of the deviation replayed: with the deviation", tmp)
+    acts = [st[0] if len(st) == 1 else list(st) for st in steps]
+    if r1 and not r2:
+        ctx.trace_ok(1)
+        rej = _rejection(rec, r1[0][1])
+        _detail(rec, rej, CFG_INTENDED)
+        ctx.notes[f"{SIG}_real"] = f"TLC counterexample {acts} (id case {params['idcase']}) reproduces on the real controllers"
+        ctx.violation(f"TLC counterexample {acts} of NoUpdatesWhileRemoving under the deviation reproduces on the real code: " + _explain(rec, rej),
+                      {"kind": "trace", "params": params, "steps": rec["steps"], "position": rej["maxl"], "event": rej["event"],
+                       "id": rec["id"], "src": rec["src"]}, signature=SIG)
+    elif not r1:
+        ctx.notes[f"{SIG}_real"] = "the counterexample does not reproduce on the real code any more (stale finding? proposed_fixes/EXTZC-1 applied?)"
+    else:
+        rej = _rejection(rec, r2[0][1])
+        _detail(rec, rej, CFG_DEVIATION)
+        ctx.violation("the replayed TLC counterexample is explained neither by the intended behaviour nor by the deviation: " + _explain(rec, rej),
+                      {"kind": "trace", "params": params, "steps": rec["steps"], "position": rej["maxl"], "event": rej["event"],
+                       "id": rec["id"], "src": rec["src"]})
 
 
 def _report(ctx, bad):
@@ -329,7 +428,9 @@ def _replay(ctx):
     ctx.case(json.dumps(rec["events"], sort_keys=True))
     tmp2 = tempfile.mkdtemp(prefix="extzc_")
     try:
-        _report(ctx, _validate(ctx, [rec], "replayed execution", tmp2))
+        known, bad = _validate(ctx, [rec], "replayed execution", tmp2)
+        _report_known(ctx, known, "replayed execution(s)")
+        _report(ctx, bad)
     finally:
         shutil.rmtree(tmp2, ignore_errors=True)
 
@@ -365,10 +466,11 @@ def run(ctx):
         ctx.tlc("discovery/ZcLifecycle", "ZcLifecycle_MC2.cfg", label="re-pairing after removal, port change, garbage answers", timeout=900, **inv_only)
         if ctx.thorough:
             ctx.tlc("discovery/ZcLifecycle", "ZcLifecycle_MC.cfg", label="honest and arbitrary c# together, both id cases, 3 initial caches", timeout=2400, **inv_only)
-        res = ctx.tlc("discovery/ZcLifecycle", "ZcLifecycle_neg.cfg", expect_violation=True, require_cover=False, coverage=False,
-                      label="non-vacuity: remove_pairing popping pairing.id (tree before the fix) must be refuted", timeout=600)
+        res = ctx.tlc("discovery/ZcLifecycle", "ZcLifecycle_neg.cfg", expect_violation=True, require_cover=False, coverage=False, workers=1,
+                      label="deviation NormalisedRemove = FALSE (remove_pairing pops pairing.id): TLC must find the counterexample", timeout=600)
         if res.ok or res.violation["name"] not in ("NoUpdatesWhileRemoving", "RemovedMeansGone"):
             raise MachineryError(f"vacuity: with NormalisedRemove = FALSE TLC reported {None if res.ok else res.violation['name']}")
+        _confirm_finding(ctx, res, tmp)          # ... and that counterexample must still replay on the real code
         # ---------------- (B) behaviours
         d = os.path.join(tmp, "sim")
         os.makedirs(d)
@@ -401,7 +503,8 @@ def run(ctx):
             nontrivial = any(e["obs"]["disc"] for e in r["events"]) and any(e["ev"] == "load" for e in r["events"])
             ctx.case(json.dumps([{k: v for k, v in e.items() if k in KEEP} for e in r["events"]], sort_keys=True) if nontrivial else None)
         # ---------------- (C) verdict
-        bad = _validate(ctx, recs, "trace validation ZcLifecycle_Trace", tmp)
+        known, bad = _validate(ctx, recs, "trace validation ZcLifecycle_Trace", tmp)
+        _report_known(ctx, known, f"of {len(recs)} executions")
         # ---------------- (D) records for shut-down pairings, IP and CoAP flavour, against C19's Discovery_Trace
         from harness.props import c19 as P19
         jobs_s = [(f"sd-{tr}-{int(sb)}-{via}", tr, sb, via) for tr in ("ip", "coap") for sb in (False, True) for via in ("direct", "browser")]
